@@ -1,9 +1,153 @@
-(* C20 — on-demand pull (work in progress: statements are added as they are proved) *)
+(* C20 — on-demand pull creates, serves and cleans up streams under any camera behaviour.
+   Statements only; proofs are in Proofs/C20PullProofs.v, C20ConcProofs.v, C20Refuted.v.
+
+   Model (Model/C20Pull.v): a camera answers from a script of reply kinds
+   {ok, 401 Basic, 401 Digest, 401 unknown scheme, 4xx, 5xx, malformed, silence until the time-out,
+   reset, EOF}: item 0 answers the connect, item n+1 the n-th request, the items after an accepted
+   PLAY are play events, an exhausted script = the camera closes — so every prefix of a script is a
+   script and the theorems, which quantify over all scripts, cover a disconnect at every point.
+   [request c w s] = media.GetOrCreate of the routed path in world [w] (registered?, stats counter,
+   open connections, pull goroutines); [round] adds the play phase and the end of the pull client;
+   [rounds] chains requests, each starting from what the previous one left. *)
 From Coq Require Import ZArith List Bool.
-From V Require Import C20Pull C20PullProofs.
+From V Require Import Bytes Registry RegistryProofs.
+From V Require Import Val C20Pull C20PullProofs C20ConcProofs RunC20 C20Refuted.
 Import ListNotations.
 Open Scope Z_scope.
 
-Theorem C20_play_nonneg : forall s, 0 <= play s.
-Proof. exact play_nonneg. Qed.
-Print Assumptions C20_play_nonneg.
+(* 1. pull_outcomes.  For every configuration, every camera script and every world in which the
+   path is not registered, the request ends in one of two ways:
+   - Playing: the path was routed, the stream is registered ([started w]: registered, counter +1,
+     one connection, one reader goroutine), the requests are in protocol order starting with OPTIONS,
+     every planned request (DESCRIBE, SETUP per track, PLAY) was performed, the last request is a
+     PLAY that the camera answered 200 and it carries the camera's session iff there was a SETUP;
+   - Failed: the world is unchanged (nothing registered, connection closed, counter restored, no
+     goroutine) and the camera did not accept a PLAY;
+   in both cases the credentials were used as challenged ([creds_ok]: no Authorization before the
+   first challenge, the scheme of the challenge on the repeated request, the MD5 variant of the
+   password only after two challenges) and never when the route URL has none. *)
+Theorem C20_pull_outcomes : forall c w s, w_reg w = false ->
+  let '(out, q, w1, s1, runs) := request c w s in
+  creds_ok (tl s) q = true /\
+  (c_user c = false -> Forall (fun x => auth_none (q_auth x) = true) q) /\
+  (q = [] \/ order_ok (map q_meth q) = true) /\
+  match out with
+  | Playing =>
+      c_routed c = true /\ c_sdp_bad c = false /\ w1 = started w /\ runs = true /\
+      order_ok (map q_meth q) = true /\
+      last_req_accepted (tl s) q = true /\
+      (forall m, (count_meth m (plan c) <= count_meth m (map q_meth q))%nat) /\
+      (exists x, last_pair (replies (tl s) q) = Some (x, ROk) /\ q_meth x = MPlay /\
+                 q_sess x = (c_video c || c_audio c)) /\
+      s1 = skipn (length q) (tl s)
+  | Failed =>
+      w1 = w /\ runs = false /\ last_req_accepted (tl s) q = false
+  end.
+Proof. exact request_spec. Qed.
+Print Assumptions C20_pull_outcomes.
+
+(* 2. pull_no_leak.  Whatever the script (hence after every prefix of it: refusal, garbage, stall or
+   disconnect at any handshake step or at any point of the play phase), after the round the world is
+   what it was: nothing registered, counter restored, no connection, no goroutine, and the consumer
+   attached while playing has been closed; a failed request leaves nothing even in between; while
+   playing, a second request gets the registered stream without a second pull and the packets sent
+   before the end are delivered. *)
+Theorem C20_pull_no_leak : forall c w s, w_reg w = false ->
+  let o := fst (round c w s) in
+  snd (round c w s) = w /\ o_final o = w /\ o_closed o = true /\
+  (o_out o = Failed -> o_mid o = w /\ o_delivered o = 0) /\
+  (o_out o = Playing -> o_mid o = started w /\ w_reg (o_mid o) = true /\ o_again o = true /\
+                        o_delivered o = play (skipn (length (o_reqs o)) (tl s))).
+Proof. exact round_no_leak. Qed.
+Print Assumptions C20_pull_no_leak.
+
+Theorem C20_pull_no_leak_every_prefix : forall c s n, snd (round c w0 (firstn n s)) = w0.
+Proof. exact prefix_no_leak. Qed.
+Print Assumptions C20_pull_no_leak_every_prefix.
+
+(* ... and therefore a later request pulls afresh: in any sequence of requests each one behaves as a
+   first request (connects, starts with an unauthenticated OPTIONS, ...) *)
+Theorem C20_later_request_pulls_afresh : forall c ss,
+  rounds c w0 ss = map (fun s => fst (round c w0 s)) ss.
+Proof. exact (fun c ss => proj2 (rounds_spec c ss)). Qed.
+Print Assumptions C20_later_request_pulls_afresh.
+
+(* 3. pull_concurrent_one_registered.  Two simultaneous first requests whose handshakes both succeed
+   register their streams (1 and 2) concurrently; for every interleaving of the two registrations
+   (atomic swap, then retire of the replaced stream; C05) after which both are done, exactly one of
+   the two is registered and live, the other is closed, and the end of the losing pull client
+   (Unregist of its closed stream) leaves the winner registered. *)
+Theorem C20_pull_concurrent_one_registered :
+  forall (c : C20Pull.cfg) (sA sB : script) (p : bytes) (h1 h2 : bool) (sched : list bool),
+  pull_ok c sA = true -> pull_ok c sB = true ->
+  let r := race_run (race_init p false h1 h2 false) sched in
+  c_a r = PDone -> c_b r = PDone ->
+  exists w l, ((w = 1 /\ l = 2) \/ (w = 2 /\ l = 1))%nat /\
+    g_map (c_g r) = [(p, w)] /\
+    st_live (sget (c_g r) w) = true /\ st_live (sget (c_g r) l) = false /\
+    fst (gstep rfixed (c_g r) (GUnregist l)) = c_g r.
+Proof. exact concurrent_one_registered. Qed.
+Print Assumptions C20_pull_concurrent_one_registered.
+
+(* 4. the boolean specification [ok_rounds] — written from the property text, independent of the
+   request function — is the oracle the check applies to the implementation's observations
+   (Run/RunC20.v x_C20_ok); the model satisfies it for every configuration and all scripts *)
+Theorem C20_model_passes : forall c ss, ok_rounds c ss (rounds c w0 ss) = true.
+Proof. exact (fun c ss => proj1 (rounds_spec c ss)). Qed.
+Print Assumptions C20_model_passes.
+
+(* 5. the code before the repairs, as observed by the harness, is rejected by that oracle, and the
+   model predicts the repaired behaviour:
+   D33 no read deadline during the handshake; D34 panic in requestSDP leaks the connection;
+   index out of range for a camera URL without path; session id not trimmed after an auth retry *)
+Theorem C20_pull_silent_camera_hangs_refuted :
+  x_C20_ok (VL [wcase [0;3;0;0;1;1] [0;6];
+                wobs 3 [[0;0;0]] [1;0;0;1] 1 0 [0;0;0;0;1]]) = VI 0 /\
+  x_C20_run (wcase [0;3;0;0;1;1] [0;6]) = wobs 0 [[0;0;0]] [0;0;0;0] 1 0 [0;0;0;0;1].
+Proof. exact silent_camera_hangs_refuted. Qed.
+Print Assumptions C20_pull_silent_camera_hangs_refuted.
+
+Theorem C20_pull_sdp_without_format_leaks_refuted :
+  x_C20_ok (VL [wcase [0;3;2;0;1;1] [0;0;0;0;0;0];
+                wobs 2 [[0;0;0];[1;0;0]] [1;0;0;0] 1 0 [0;0;0;0;1]]) = VI 0 /\
+  x_C20_run (wcase [0;3;2;0;1;1] [0;0;0;0;0;0]) = wobs 0 [[0;0;0];[1;0;0]] [0;0;0;0] 1 0 [0;0;0;0;1].
+Proof. exact sdp_without_format_leaks_refuted. Qed.
+Print Assumptions C20_pull_sdp_without_format_leaks_refuted.
+
+Theorem C20_pull_empty_url_path_panics_refuted :
+  x_C20_ok (VL [wcase [0;3;0;1;1;1] [0;0;0;0;0;0];
+                wobs 2 [[0;0;0];[1;0;0]] [1;0;0;0] 1 0 [0;0;0;0;1]]) = VI 0 /\
+  x_C20_run (wcase [0;3;0;1;1;1] [0;0;0;0;0;0]) =
+    wobs 1 [[0;0;0];[1;0;0];[2;0;0];[2;0;1];[3;0;1]] [1;1;1;1] 1 0 [0;0;0;0;1].
+Proof. exact empty_url_path_panics_refuted. Qed.
+Print Assumptions C20_pull_empty_url_path_panics_refuted.
+
+Theorem C20_pull_session_after_retry_refuted :
+  x_C20_ok (VL [wcase [1;1;0;0;1;1] [0;0;0;2;0;0];
+                wobs 1 [[0;0;0];[1;0;0];[2;0;0];[2;3;0];[3;3;0]] [1;1;1;1] 1 0 [0;0;0;0;1]]) = VI 0 /\
+  x_C20_run (wcase [1;1;0;0;1;1] [0;0;0;2;0;0]) =
+    wobs 1 [[0;0;0];[1;0;0];[2;0;0];[2;3;0];[3;3;1]] [1;1;1;1] 1 0 [0;0;0;0;1].
+Proof. exact session_after_retry_refuted. Qed.
+Print Assumptions C20_pull_session_after_retry_refuted.
+
+(* 6. non-vacuity: a Digest challenge at OPTIONS, a second challenge answered with the MD5 variant,
+   two tracks, three packets, then the camera resets: playing, 8 requests, 3 packets delivered,
+   everything released; and the concurrency scenario has members *)
+Example C20_nonvacuous :
+  let c := {| c_user := true; c_video := true; c_audio := true; c_sdp_bad := false; c_routed := true |} in
+  let s := [ROk; RDigest; RDigest; ROk; ROk; ROk; ROk; ROk; ROk; ROk; ROk; RReset; ROk] in
+  let o := fst (round c w0 s) in
+  o_out o = Playing /\
+  map q_meth (o_reqs o) = [MOptions; MOptions; MOptions; MDescribe; MSetup; MSetup; MPlay] /\
+  map q_auth (o_reqs o) = [ANone; ADigest false; ADigest true; ADigest true; ADigest true; ADigest true; ADigest true] /\
+  o_mid o = started w0 /\ o_delivered o = 3 /\ o_final o = w0 /\
+  ok_round c w0 s o = true.
+Proof. vm_compute. repeat split; reflexivity. Qed.
+
+Example C20_concurrent_nonvacuous :
+  let c := {| c_user := true; c_video := true; c_audio := true; c_sdp_bad := false; c_routed := true |} in
+  let s := repeat ROk 6 in
+  pull_ok c s = true /\
+  forall p h1 h2, let r := race_run (race_init p false h1 h2 false) [true; true; false; false] in
+                  c_a r = PDone /\ c_b r = PDone.
+Proof. exact concurrent_nonvacuous. Qed.
